@@ -80,6 +80,10 @@ func Explore(bound, maxRuns int, mine func(uint64) bool, rootOnShard0 bool, run 
 					np[k], nn[k] = tr[k].C, tr[k].N
 				}
 				np[i], nn[i] = alt, tr[i].N
+				DebugParentEnabled = DebugParentEnabled[:0]
+				for k := 0; k <= i; k++ {
+					DebugParentEnabled = append(DebugParentEnabled, tr[k].En)
+				}
 				rec(np, nn, devs+1)
 			}
 		}
